@@ -80,6 +80,22 @@ class _SharedFile:
     def attrs(self):
         return self._s["file"].attrs
 
+    def __contains__(self, name):
+        return name in self._s["file"]
+
+    def keys(self):
+        return self._s["file"].keys()
+
+    def require_dataset(self, name, shape, dtype, **kw):
+        if str(name) in self._s["dsets"] or name in self._s["file"]:
+            return self[name]
+        return self.create_dataset(name, shape=shape, dtype=dtype, **kw)
+
+    def __getattr__(self, name):
+        if name.startswith("_"):
+            raise AttributeError(name)
+        return getattr(self._s["file"], name)
+
     def flush(self):
         pass
 
@@ -154,6 +170,37 @@ class _SharedDataset:
 
     def __getitem__(self, key):
         return self._d[key]
+
+    def _log_sel(self, sel):
+        if sel is None:
+            sel = tuple(slice(None) for _ in self._d.shape)
+        sl = sel if isinstance(sel, tuple) else (sel,)
+        box = []
+        for i, k in enumerate(sl):
+            if isinstance(k, slice):
+                st, en, _ = k.indices(self._d.shape[i])
+                box.append((int(st), int(en)))
+            else:
+                box.append((int(k), int(k) + 1))
+        LOG.append((self._s["name"], self._name, self._c._sh.members[self._c._rk], box))
+        return box
+
+    def read_direct(self, dest, source_sel=None, dest_sel=None):
+        return self._d.read_direct(dest, source_sel, dest_sel)
+
+    def write_direct(self, source, source_sel=None, dest_sel=None):
+        box = self._log_sel(dest_sel)
+        if all(b > a for a, b in box):
+            return self._d.write_direct(source, source_sel, dest_sel)
+
+    def __len__(self):
+        return len(self._d)
+
+    def __getattr__(self, name):
+        # read-only properties and methods of the real dataset that need no emulation (ndim, size, name, chunks, astype, ...)
+        if name.startswith("_"):
+            raise AttributeError(name)
+        return getattr(self._d, name)
 
     @property
     def attrs(self):
